@@ -1,5 +1,161 @@
-/- Engine `pretty` (C10): not built yet. -/
+/-
+  Engine `pretty` (C10).  Op line (see harness/pretty.cpp for the full description):
+    A|M <lossless> <prec> <linelength> <compress> <cols0> <addr-hex|-> <arg>*
+    T|TM <text-hex>                      count + scan of a given text
+    X a32|a64|f32|f64|sf32|sf64|si|tm …  the libc sub-models alone
+  Output line: `P <ret> <text-hex> C <count> S <rd> <n> <cell>* [A <addr-hex>] E <eq>`
+-/
+import RtoscModel.Pretty.Check
 import Driver.Common
 namespace Driver.PrettyEngine
-def engine : Driver.Engine := Driver.stateless (fun _ => "unimplemented")
+open Rtosc Rtosc.Libc Rtosc.Pretty
+open Rtosc.ArgVal (Cell IntTy StrTy FlagTy)
+
+def hexNat? (s : String) : Option Nat :=
+  s.toList.foldl (fun acc c => do let a ← acc; let d ← hexVal c; pure (a * 16 + d)) (some 0)
+
+def padHex (w n : Nat) : String :=
+  let s := String.ofList ((Nat.toDigits 16 n))
+  String.ofList (List.replicate (w - s.length) '0') ++ s
+
+def payload (tok : String) (k : Nat) : String := String.ofList (tok.toList.drop k)
+
+/-- op-line argument tokens → flat cells -/
+def parseArgs : Nat → List String → Option (List Cell × List String)
+  | 0, _ => none
+  | _, [] => some ([], [])
+  | fuel + 1, tok :: rest =>
+    match tok.toList with
+    | ']' :: [] => some ([], tok :: rest)
+    | '[' :: ty => do
+      let t ← (String.ofList ty).toNat?
+      let (inner, rest1) ← parseArgs fuel rest
+      match rest1 with
+      | "]" :: rest2 =>
+        let (more, rest3) ← parseArgs fuel rest2
+        some (Cell.arr t.toUInt8 inner.length :: inner ++ more, rest3)
+      | _ => none
+    | c :: _ => do
+      let p := payload tok 1
+      let cell : Cell ←
+        if c = 'i' then p.toInt?.map (Cell.int .i)
+        else if c = 'c' then p.toInt?.map (Cell.int .c)
+        else if c = 'h' then p.toInt?.map Cell.huge
+        else if c = 'f' then (hexNat? p).map (fun n => Cell.flt n.toUInt32)
+        else if c = 'd' then (hexNat? p).map (fun n => Cell.dbl n.toUInt64)
+        else if c = 't' then (hexNat? p).map Cell.time
+        else if c = 'r' then (hexNat? p).map (fun n => Cell.int .r (toI32 n))
+        else if c = 'm' then (hexNat? p).map (fun n => Cell.midi (n / 16777216 % 256).toUInt8 (n / 65536 % 256).toUInt8 (n / 256 % 256).toUInt8 (n % 256).toUInt8)
+        else if c = 's' then (ofHex (payload tok 2)).map (fun b => Cell.str .s (some b))
+        else if c = 'S' then (ofHex (payload tok 2)).map (fun b => Cell.str .S (some b))
+        else if c = 'b' then (ofHex (payload tok 2)).map Cell.blob
+        else if tok = "T" then some (Cell.flag .T)
+        else if tok = "F" then some (Cell.flag .F)
+        else if tok = "N" then some (Cell.flag .N)
+        else if tok = "I" then some (Cell.flag .I)
+        else none
+      let (more, rest1) ← parseArgs fuel rest
+      some (cell :: more, rest1)
+    | [] => none
+
+def showCell : Cell → String
+  | .int .i v => s!"i{v}"
+  | .int .c v => s!"c{v}"
+  | .int .r v => "r" ++ padHex 8 (v % 4294967296).toNat
+  | .huge v => s!"h{v}"
+  | .time v => "t" ++ padHex 16 v
+  | .flt b => "f" ++ padHex 8 b.toNat
+  | .dbl b => "d" ++ padHex 16 b.toNat
+  | .midi a b c d => "m" ++ padHex 2 a.toNat ++ padHex 2 b.toNat ++ padHex 2 c.toNat ++ padHex 2 d.toNat
+  | .str .s (some b) => "s:" ++ toHex (b.takeWhile (· ≠ 0))
+  | .str .S (some b) => "S:" ++ toHex (b.takeWhile (· ≠ 0))
+  | .str .s none => "s:NULL"
+  | .str .S none => "S:NULL"
+  | .blob d => "b:" ++ toHex d
+  | .flag .T => "T" | .flag .F => "F" | .flag .N => "N" | .flag .I => "I"
+  | .arr t len => s!"a{t.toNat}:{len}"
+  | .rep n hd => s!"R{n}:{hd}"
+
+def showErr : Pretty.Err → String
+  | .oob => "model:oob" | .undef => "model:undef" | .trap => "model:trap" | .unmodelled => "model:unmodelled"
+  | .argval => "model:argval" | .fuel => "model:fuel" | .hang => "model:hang"
+
+/-- `C … S … [A …] [E …]` for a text -/
+def countScan (text : Bytes) (msg : Bool) (orig : Option (List Cell)) : String :=
+  match (if msg then countPrintedArgValsOfMsg text else countPrintedArgVals text) with
+  | .error e => "C " ++ showErr e
+  | .ok count =>
+    if count < 0 then s!"C {count} S -"
+    else
+      let n := count.toNat
+      let scanned : Pretty.Res (Nat × Option Bytes × List Cell) :=
+        if msg then (do let (rd, a, cs) ← scanMessage text 256 n; pure (rd, some a, cs))
+        else (do let (rd, cs) ← scanArgVals text n; pure (rd, none, cs))
+      match scanned with
+      | .error e => s!"C {count} S " ++ showErr e
+      | .ok (rd, addr, cells) =>
+        let cellsTxt := String.join (cells.map (fun c => " " ++ showCell c))
+        let a := match addr with | some a => " A " ++ toHex a | none => ""
+        let e := match orig with
+          | none => ""
+          | some o =>
+            match ArgVal.eq (o.length + cells.length + 4) o cells o.length n with
+            | .ok b => " E " ++ (if b then "1" else "0")
+            | .error _ => " E model:argval"
+        s!"C {count} S {rd} {cells.length}{cellsTxt}{a}{e}"
+
+def libcStep (w : List String) : String :=
+  match w with
+  | [_, "a32", b] => match hexNat? b with | some n => toHex (fmtA (promote n)) | none => "bad-op"
+  | [_, "a64", b] => match hexNat? b with | some n => toHex (fmtA n) | none => "bad-op"
+  | [_, "f32", p, b] => match p.toNat?, hexNat? b with | some p, some n => toHex (fmtF true p (promote n)) | _, _ => "bad-op"
+  | [_, "f64", p, b] => match p.toNat?, hexNat? b with | some p, some n => toHex (fmtF true p n) | _, _ => "bad-op"
+  | [_, "sf32", t] =>
+    match ofHex t with
+    | some txt => (match sscanf fmtScFloat txt with | [.flt b, .pos rd] => s!"{rd} " ++ padHex 8 b | _ => "fail")
+    | none => "bad-op"
+  | [_, "sf64", t] =>
+    match ofHex t with
+    | some txt => (match sscanf [.flt true false, .n] txt with | [.flt b, .pos rd] => s!"{rd} " ++ padHex 16 b | _ => "fail")
+    | none => "bad-op"
+  | [_, "si", conv, wd, t] =>
+    match ofHex t with
+    | some txt =>
+      let cv : IntConv := if conv = "d" then .d else if conv = "i" then .i else .x
+      (match sscanf [.int cv wd.toNat? false, .n] txt with | [.int v, .pos rd] => s!"{rd} {toI64 v}" | _ => "fail")
+    | none => "bad-op"
+  | [_, "tm", sec] =>
+    match sec.toNat? with
+    | some s =>
+      let tm := localtime s
+      toHex (Libc.fmtDate tm ++ 32 :: fmtHM tm ++ 58 :: fmtS tm) ++ s!" {mktime tm}"
+    | none => "bad-op"
+  | _ => "bad-op"
+
+def step (line : String) : String :=
+  let w := words line
+  match w with
+  | "X" :: _ => libcStep w
+  | [m, t] =>
+    if m = "T" ∨ m = "TM" then
+      match ofHex t with
+      | some txt => countScan txt (m = "TM") none
+      | none => "bad-op"
+    else "bad-op"
+  | m :: l :: p :: ll :: c :: k :: a :: args =>
+    if m ≠ "A" ∧ m ≠ "M" then "bad-op" else
+    match l.toNat?, p.toNat?, ll.toInt?, c.toNat?, k.toInt?, ofHex a, parseArgs (args.length + 2) args with
+    | some l, some p, some ll, some c, some k, some addr, some (cells, []) =>
+      let opt : POpt := { lossless := l ≠ 0, prec := p, linelength := ll, compress := c ≠ 0 }
+      let printed : Pretty.Res (PSt × Nat) :=
+        if m = "M" then printMessage opt addr cells k else printArgVals opt cells { out := [], cols := k }
+      match printed with
+      | .error e => "P " ++ showErr e
+      | .ok (st, ret) =>
+        let text := st.out.takeWhile (· ≠ 0)
+        s!"P {ret} {toHex text} " ++ countScan text (m = "M") (some cells)
+    | _, _, _, _, _, _, _ => "bad-op"
+  | _ => "bad-op"
+
+def engine : Driver.Engine := Driver.stateless step
 end Driver.PrettyEngine
